@@ -193,7 +193,13 @@ def drive(lines, timeout=3000):
         out.pop()
     if len(out) != len(lines):
         raise RuntimeError(f"driver returned {len(out)} lines for {len(lines)} commands; stderr: {p.stderr[-500:]}")
+    if len(XLOG) < 40000:
+        XLOG.extend((l, o) for l, o in zip(lines, out) if l[:5] in ("PARSE", "PRINT", "EVAL ", "APPLY"))
     return out
+
+
+# (protocol line, driver answer) pairs of the commands that harness/xcheck.py can re-evaluate inside Coq
+XLOG = []
 
 
 # ------------------------------------------------------------------ proof obligations
